@@ -36,11 +36,16 @@ func BindMemoizedContext[A comparable, B any](scope incr.Scope, a incr.Incr[A], 
 func BindMemoizedContextCached[A comparable, B any](scope incr.Scope, a incr.Incr[A], fn incr.BindContextFunc[A, B], cache BindCache[A, B]) BindMemoizedIncr[A, B] {
 	bm := new(bindMemoizedIncr[A, B])
 	bm.cache = cache
-	bm.BindIncr = incr.BindContext(scope, a, func(ctx context.Context, innerScope incr.Scope, key A) (incr.Incr[B], error) {
+	bm.BindIncr = incr.BindContext(scope, a, func(ctx context.Context, _ incr.Scope, key A) (incr.Incr[B], error) {
 		if cached, ok := cache.Get(key); ok {
 			return cached, nil
 		}
-		value, err := fn(ctx, innerScope, key)
+		// The subgraph is built in the scope the memoized bind itself lives in, not in the
+		// bind's own scope. Nodes created in a bind's scope belong to one run of its function:
+		// they are invalidated when the bind's input changes and their storage is reissued
+		// two rebuilds later, whereas a cached subgraph has to outlive both so that it can be
+		// handed back the next time its key comes round.
+		value, err := fn(ctx, scope, key)
 		if err != nil {
 			return nil, err
 		}
